@@ -1,10 +1,10 @@
 (* C18, companion file - WHO is the user of a request and WHICH permission list decides it, over histories: ApiUser objects
    whose `permissions` attribute is assigned, restored, whose objects are deleted and (re-)created while the process runs,
    and keep-alive connections carrying different credentials over time - and nothing else.  Each theorem is closed by [exact]
-   of a lemma proved in Perm/PmUsersProofs.v / Perm/PmFacts.v and followed by Print Assumptions.  Model: Perm/PmUsers.v.
+   of a lemma proved in Perm/PmUsersProofs.v / Perm/PmUsersFacts.v and followed by Print Assumptions.  Model: Perm/PmUsers.v.
    The decision function of a request ([decide perms rq], e.g. pm_filter_targets with the handler's QueryDescription) is
    universally quantified: the theorems hold for every handler. *)
-From Icv Require Import Base.Tac Perm.PmModel Perm.PmProofs Perm.PmObs Perm.PmUsers Perm.PmUsersProofs Perm.PmFacts Facts.Facts_c18.
+From Icv Require Import Base.Tac Perm.PmModel Perm.PmProofs Perm.PmObs Perm.PmUsers Perm.PmUsersProofs Perm.PmUsersFacts Facts.Facts_c18.
 Local Open Scope Z_scope.
 
 (* freshness.  For every configuration that reads the attribute on every call or drops its derived member in the setter
